@@ -39,6 +39,13 @@ KEY_DECL = {"name": xdm.cps("kt"), "match": bin_("|", bin_("|", path([step("chil
             "use": fn("string", path([step("self", T_NODE)]))}
 
 
+# two more keys with the same QName text k:kt in different namespaces: {urn:u}kt indexes every node by its string-value, {urn:v}kt
+# gives every node the value 't' - a key() pattern that names them through a prefix means one or the other depending on the
+# namespace declarations in scope on ITS xsl:template
+NS_KEYS = [("urn:u", {"name": xdm.cps("{urn:u}kt"), "match": KEY_DECL["match"], "use": KEY_DECL["use"]}),
+           ("urn:v", {"name": xdm.cps("{urn:v}kt"), "match": KEY_DECL["match"], "use": lit("t")})]
+
+
 MC_TABLES = os.path.join(ROOT, "spec/mc/MC_PatternTables.tla")
 
 
@@ -94,7 +101,72 @@ def gen_tree(rng):
             i1["imports"].append(deco({"id": 4, "rules": rules(rng.randint(1, 2)), "imports": []}))
     if shape in ("two", "twochain"):
         main["imports"].append(deco({"id": 3, "rules": rules(rng.randint(1, 3)), "imports": []}))
+    # 5.6: xsl:call-template does not change the current template rule, so a rule may reach its xsl:apply-imports through a named
+    # template that stands in ANY module of the tree: the imports searched are still those of the module of the calling RULE
+    mods = []
+    def collect(m):
+        mods.append(m)
+        for i in m["imports"]:
+            collect(i)
+    collect(main)
+    for m in mods:
+        for r in m["rules"]:
+            if r["imports"] and rng.random() < 0.45:
+                r["callmod"] = rng.choice([x for x in mods if not x.get("simplified")])["id"]
+    if rng.random() < 0.2:
+        # a simplified stylesheet as one more import of some module: its single rule matches "/" in the default mode only
+        rid[0] += 1
+        host = rng.choice([main] + main["imports"])
+        host["imports"].insert(rng.randrange(len(host["imports"]) + 1), simplified_module(5, rid[0]))
     return main
+
+
+def simplified_module(mid, rid):
+    return {"id": mid, "simplified": True, "imports": [], "qmode": False, "style": 0,
+            "rules": [{"rid": rid, "pat": path([], abs_=True), "mode": "", "hasPrio": False, "prio": {"k": "fin", "neg": False, "m": 0}, "imports": False}]}
+
+
+def twin_trees():
+    """Rules whose match attributes have the SAME TEXT but are different patterns, because each template binds the prefix to another
+    namespace (p:b / @p:x / p:*), side by side in one module in both orders, with equal priorities or none, with and without a third
+    rule that shares a table with them, and across an import; and a simplified stylesheet imported next to ordinary modules.
+    Runs on the namespace document (elements b and attributes x in urn:u, urn:v, a default namespace and none)."""
+    P = lambda *steps, **kw: path(list(steps), **kw)
+    ch = lambda t, *p: step("child", t, *p)
+    at = lambda t, *p: step("attribute", t, *p)
+    U, V = "urn:u", "urn:v"
+    def rule(rid, pat, pr, nsd):
+        return {"rid": rid, "pat": pat, "mode": "m", "hasPrio": pr is not None, "prio": {"k": "fin", "neg": (pr or 0) < 0, "m": abs(pr or 0)}, "imports": False, "nsdecl": nsd}
+    keyname = lambda u: dict(lit("{%s}kt" % u), rtext="p:kt")
+    forms = [lambda u: fn("key", keyname(u), lit("t")), lambda u: path([step("child", T_NODE)], start=fn("key", keyname(u), lit("t"))),
+             lambda u: P(ch(t_name("b", u, "p"))), lambda u: P(at(t_name("x", u, "p"))), lambda u: P(ch(xpgen.t_nsany(u, "p"))),
+             lambda u: P(ch(T_ANY), ch(t_name("b", u, "p"))), lambda u: P(ch(t_name("b", u, "p"), P(at(T_ANY))))]
+    out = []
+    for f in forms:
+        for (u1, u2) in ((U, V), (V, U)):
+            for pr in (None, 1):
+                for third in (None, P(ch(T_ANY)), P(ch(t_name("b", U, "p")))):
+                    r1, r2 = rule(1, f(u1), pr, [("p", u1)]), rule(2, f(u2), pr, [("p", u2)])
+                    rs = [r1, r2] + ([rule(3, third, -2, [("p", U)])] if third else [])
+                    out.append({"id": 1, "rules": rs, "imports": [], "qmode": False, "style": 0})
+            out.append({"id": 1, "rules": [rule(1, f(u1), None, [("p", u1)])], "qmode": False, "style": 0,
+                        "imports": [{"id": 2, "rules": [rule(2, f(u2), None, [("p", u2)])], "imports": [], "qmode": False, "style": 0}]})
+    b = P(ch(t_name("b")))
+    plain = lambda rid, pat: rule(rid, pat, None, None)
+    for where in ("only", "first", "last", "nested"):
+        simp = simplified_module(5, 9)
+        m2 = {"id": 2, "rules": [plain(2, P(ch(T_ANY)))], "imports": [], "qmode": False, "style": 0}
+        if where == "only":
+            imps = [simp]
+        elif where == "first":
+            imps = [simp, m2]
+        elif where == "last":
+            imps = [m2, simp]
+        else:
+            m2["imports"] = [simp]; imps = [m2]
+        for ai in (False, True):
+            out.append({"id": 1, "rules": [dict(plain(1, b), imports=ai)], "imports": [dict(i) for i in imps], "qmode": False, "style": 0})
+    return out
 
 
 def targeted_trees():
@@ -156,13 +228,19 @@ def ladder_trees():
     return out
 
 
-def render_module(mod, first_line, is_main):
+def render_module(mod, first_line, is_main, named=()):
     """returns (text, line->rid map, next free line). One template per line; lines are globally unique.
     Lexical variation that must not matter (XSLT 2.4: an unprefixed QName in mode= is in NO namespace, whatever default namespace
     is declared; a prefixed mode is compared by expanded name): a module may declare a default namespace, and may spell the tested
     mode with its own prefix bound to the shared mode namespace."""
+    if mod.get("simplified"):
+        # a literal result element as stylesheet (XSLT 2.3): ONE rule, match="/", default mode, no priority.  Blank lines in front keep
+        # the rule's line number unique among the modules of the case.
+        r = mod["rules"][0]
+        text = "\n" * (first_line - 1) + '<lre xsl:version="1.0" %s>simplified</lre>\n' % XSLNS
+        return text, {first_line: r["rid"]}, first_line + 2
     style = mod.get("style", 0)
-    extra = ""
+    extra = ' xmlns:p="urn:u" xmlns:q="urn:v"'
     if style & 1:
         extra += ' xmlns="urn:default-ns-of-module-%d"' % mod["id"]
     qmode = bool(mod.get("qmode"))
@@ -183,12 +261,21 @@ def render_module(mod, first_line, is_main):
             attrs += ' priority="%s"' % prio_text(m)
         # the xsl:if marks the end of the dynamic extent of apply-imports in the trace
         body = '<xsl:apply-imports/><xsl:if test="false()"/>' if r["imports"] else ""
+        if r["imports"] and r.get("callmod") is not None:
+            body = '<xsl:call-template name="n%d"/>' % r["rid"]
+        if r.get("nsdecl"):
+            attrs += "".join(' xmlns:%s="%s"' % (pf, u) for pf, u in r["nsdecl"])     # this template's own bindings of the prefixes its pattern uses
         lines.append("<xsl:template %s>%s</xsl:template>" % (attrs, body))
         lmap[len(lines)] = r["rid"]
+    for rid in named:        # named templates called by rules (of any module) that reach their xsl:apply-imports through them
+        lines.append('<xsl:template name="n%d"><xsl:apply-imports/><xsl:if test="false()"/></xsl:template>' % rid)
+        lmap[len(lines)] = rid
+        lmap.setdefault("named", set()).add(len(lines))
     if is_main:
         lines.append('<xsl:template match="/" priority="99"><xsl:apply-templates select="//node() | //@* | /" mode="%s"/></xsl:template>' % mode_text("m"))
         lmap[len(lines)] = -99
-    lines.append(('<xsl:key name="kt" match=%s use=%s/>' % (quoteattr(xpgen.render(KEY_DECL["match"])), quoteattr(xpgen.render(KEY_DECL["use"]))) if is_main else "")
+    lines.append(('<xsl:key name="kt" match=%s use=%s/>' % (quoteattr(xpgen.render(KEY_DECL["match"])), quoteattr(xpgen.render(KEY_DECL["use"])))
+                  + "".join('<xsl:key name="k:kt" xmlns:k="%s" match=%s use=%s/>' % (u, quoteattr(xpgen.render(kd["match"])), quoteattr(xpgen.render(kd["use"]))) for u, kd in NS_KEYS) if is_main else "")
                  + "</xsl:stylesheet>")
     return "\n".join(lines) + "\n", lmap, len(lines) + 2
 
@@ -196,14 +283,21 @@ def render_module(mod, first_line, is_main):
 def write_case(cdir, tree, xml):
     os.makedirs(cdir, exist_ok=True)
     lmap, nxt = {}, 4
+    named = {}
+    for r in all_rules(tree):
+        if r["imports"] and r.get("callmod") is not None:
+            named.setdefault(r["callmod"], []).append(r["rid"])
     def go(mod):
         nonlocal nxt
         # imported modules first so that every module gets its own line range
         for imp in mod["imports"]:
             go(imp)
-        text, lm, nxt2 = render_module(mod, nxt, mod["id"] == 1)
+        text, lm, nxt2 = render_module(mod, nxt, mod["id"] == 1, named.get(mod["id"], ()))
         nxt = nxt2
+        nm = lmap.get("named", set()) | lm.pop("named", set())
         lmap.update(lm)
+        if nm:
+            lmap["named"] = nm
         open(os.path.join(cdir, "main.xsl" if mod["id"] == 1 else "mod%d.xsl" % mod["id"]), "w").write(text)
     go(tree)
     open(os.path.join(cdir, "in.xml"), "w").write(xml)
@@ -245,6 +339,8 @@ def picks_from_trace(events, lmap):
         if el != "xsl:template":
             last = None
             continue
+        if ev["line"] in lmap.get("named", ()):       # a called named template is not a pick
+            continue
         key = (ev["line"], tuple(ev["node"]))
         if key == last:            # each instantiation is traced twice in a row
             last = None
@@ -280,14 +376,18 @@ def run(res, tier, seed):
     nunion = len(targeted)
     ladder = ladder_trees()
     targeted = targeted + ladder
+    twins = twin_trees()
+    nsdoc = max(i for i, t in enumerate(docs) if any(c.get("nsd") for c in t["c"] if c["k"] == "elem"))       # c02.ns_doc()
     # a document with an element b (with @x), text, a comment and two processing instructions under an element: the ladder family's
     docs.append(xdm.R(xdm.E("c", xdm.E("b", xdm.T("t"), xdm.C("c"), xdm.PI("t", "d"), xdm.PI("u", ""), a=[xdm.A("x", "1")]), xdm.PI("t", ""), xdm.C("k"))))
     flats = [xdm.flatten(t, c02.ID_ATTRS) for t in docs]
+    ntarget = len(targeted)
+    targeted = targeted + twins
     ncases = (400 if quick else 8000) + len(targeted)
     cases, metas = [], []
     for k in range(ncases):
         tree = gen_tree(rng) if k >= len(targeted) else targeted[k]
-        d = rng.randrange(len(docs)) if k >= len(targeted) else (len(docs) - 2 if k < nunion else len(docs) - 1)
+        d = rng.randrange(len(docs)) if k >= len(targeted) else (len(docs) - 2 if k < nunion else len(docs) - 1 if k < ntarget else nsdoc)
         cdir = os.path.join(wd, "case%d" % k)
         lmap = write_case(cdir, tree, c02.doc_xml(docs[d]))
         cases.append({"id": k, "dir": cdir, "trace": "all", "select": False})
@@ -331,11 +431,18 @@ def run(res, tier, seed):
                 res.violation("error-free stylesheet failed: %s" % done["msg"][:200], [{"tree": spec_tree(tree), "xml": c02.doc_xml(docs[d]), "done": done}])
                 continue
             picks = picks_from_trace(evs, lmap)
+            # the root rule pushes EVERY node and attribute of the document through apply-templates in the tested mode: a node for which
+            # no template was instantiated got a built-in rule that fires no trace event (text, attributes, comments, PIs) - that is a
+            # pick too (chosen = 0), and wrong whenever a rule of the stylesheet matches the node
+            seen = {pk["node"][1] for pk in picks if pk["via"] == "apply"}
+            for i in range(1, flats[d]["n"] + 1):
+                if i not in seen:
+                    picks.append({"e": "Pick", "node": [1, i, 0], "mode": "m", "via": "apply", "from": 0, "chosen": 0})
             for pk in picks:
                 pk["doc"] = d + 1; pk["node"] = [d + 1, pk["node"][1], 0]
             events.append({"e": "Reset", "case": c["id"], "lookup": lookup})
             events.append({"e": "Rules", "tree": spec_tree(tree), "docn": d + 1,
-                           "keys": [{"name": KEY_DECL["name"], "match": xpgen.strip_render_only(KEY_DECL["match"]), "use": xpgen.strip_render_only(KEY_DECL["use"])}]})
+                           "keys": [{"name": kd["name"], "match": xpgen.strip_render_only(kd["match"]), "use": xpgen.strip_render_only(kd["use"])} for kd in [KEY_DECL] + [x[1] for x in NS_KEYS]]})
             events += picks
             npicks += len(picks); nexec += 1
             rules_m = [r for r in all_rules(tree) if r["mode"] == "m"]
@@ -366,7 +473,8 @@ def run(res, tier, seed):
     res.cov["distinct_nontrivial"] = len(nontriv)
     res.cov["rule"] = ("%d targeted rule sets (a union rule with unequal default priorities x a competitor of every relative priority x document order / import; the default-priority "
                        "ladder: per node kind every ordered pair of pattern forms of the classes -0.5 / 0 / 0.5 and each form against explicit priorities -0.5 .. 0.5) + " % len(targeted) +
-                       "seeded rule sets: 1-9 rules over a 33-pattern pool (unions with unequal default priorities, *, node(), text(), @*, '/', predicates, id() and key() patterns over a key that indexes every node by its string-value), priorities "
+                       "%d twin rule sets (match attributes with the same text under different namespace bindings, side by side and across an import; a simplified stylesheet among the imports) on the namespace document + " % len(twins) +
+                       "seeded rule sets (every 5th with a simplified stylesheet among the imports): 1-9 rules over a 33-pattern pool (unions with unequal default priorities, *, node(), text(), @*, '/', predicates, id() and key() patterns over a key that indexes every node by its string-value), priorities "
                        "{none,-1,-0.25,0,0.25,0.5,1,2}, a tested and a distractor mode, import trees (flat / one / two / chain / two+chain), apply-imports bodies; every node "
                        "and attribute of the document is pushed through apply-templates; non-trivial = at least 3 different rules chosen or an apply-imports pick; distinct by (rule tree, document)")
     for ex in execs[:3]:
